@@ -53,6 +53,14 @@ func main() {
 	case "smlworker":
 		smlWorker()
 		return
+	case "decworker":
+		decWorker()
+		return
+	case "concworker":
+		seed, _ := strconv.ParseInt(os.Args[2], 10, 64)
+		rounds, _ := strconv.Atoi(os.Args[3])
+		concWorker(seed, rounds)
+		return
 	case "check":
 		fs := flag.NewFlagSet("check", flag.ExitOnError)
 		tier := fs.String("tier", "quick", "")
